@@ -36,7 +36,7 @@ def model_checks(tier):
                  cfg=boc_cfg(3, [1], '{"pruned", "mproof"}', [1], [2], 'FALSE, TRUE', 'FALSE', 'FALSE' if q else 'TRUE'))]
 
 
-def parse(data, cls, note=None):
+def parse(data, cls, note=None, again=False):
     rec = {'op': 'parse', 'cls': cls, 'bytes': list(data)}
     if note:
         rec['note'] = note
@@ -49,6 +49,24 @@ def parse(data, cls, note=None):
         except Exception:
             m = [0] * len(heap)
         rec['out'] = {'roots': ridx, 'cells': heap, 'map': m}
+        if again:
+            # the caller owns the list it was given: whatever it does with it, parsing the same bytes once more (through both entry
+            # points) returns the roots the encoding denotes
+            roots.reverse()
+            roots.clear()
+            try:
+                roots2 = Cell.from_boc(bytes(data))
+                one = Cell.one_from_boc(bytes(data)) if len(roots2) == 1 else roots2[0]   # (the single-root entry point)
+                heap2, ridx2, _ = ck.project(list(roots2) + [one])
+                try:
+                    m2 = bk.map_heap_to(heap2, bk.positions_by_content(bag))
+                except Exception:
+                    m2 = [0] * len(heap2)
+                rec['again'] = {'roots': ridx2[:-1], 'one': ridx2[-1], 'cells': heap2, 'map': m2}
+            except RecursionError:
+                raise
+            except Exception as e:
+                rec['again'] = {'err': type(e).__name__}
     except RecursionError:
         raise
     except Exception as e:
@@ -88,7 +106,7 @@ def generate(tier, seed, ctx):
         f = e['f']
         out.append(parse(bytes(e['bytes']), 'valid', '%s %s s%d o%d%s%s%s%s roots=%s' % (
             name, f['magic'], f['size'], f['offb'], ' idx' if f['idx'] else '', ' crc' if f['crc'] else '',
-            ' cache' if f['cache'] else '', ' wh' if f['wh'] else '', e['roots'])))
+            ' cache' if f['cache'] else '', ' wh' if f['wh'] else '', e['roots']), again=(len(out) % 3 == 0 or len(e['roots']) > 1)))
     # corruptions
     base = [e for _, e in keep if not e['f']['wh']]
     crcs = [e for e in base if (e['f']['magic'] == 'generic' and e['f']['crc']) or e['f']['magic'] == 'idxcrc']
